@@ -367,6 +367,8 @@ class Interp:
         v = self.eval(s.exc, fr)
         if isinstance(v, type) and issubclass(v, BaseException):
             v = VExc(v, ())
+        if isinstance(v, VObj) and 'exc!' in v.fields:
+            v = v.fields['exc!']
         if not isinstance(v, VExc):
             raise Unsupported(f'raise of non-exception {v!r}')
         raise Raise(v)
@@ -622,6 +624,13 @@ class Interp:
         if isinstance(cur, int) or (is_sym(cur) and z3.is_int(cur)):
             return ctx.fresh(name)
         if isinstance(cur, VBytes):
+            bufs = [p.a for p in cur.pieces if isinstance(p.a, VBuf)]
+            if bufs:
+                # mutable buffer (bytearray / memoryview of one): havoc the CONTENT in place, identity and length kept
+                for b in bufs:
+                    b.arr = ctx.fresh(name + '!a', ARR)
+                    ctx.byte_axiom(b.arr)
+                return cur
             return ctx.fresh_bytes(name, cur.kind)
         if isinstance(cur, str) or isinstance(cur, VStr):
             return VStr(ctx.fresh(name), name)
@@ -678,7 +687,15 @@ class Interp:
             if isinstance(v, ast.Constant):
                 parts.append(v.value)
             else:
-                x = self.eval(v.value, fr)
+                try:
+                    x = self.eval(v.value, fr)
+                except Unsupported as e:
+                    # message text only: the component is opaque (assumed total and effect-free; listed)
+                    note = f'f-string component `{ast.unparse(v.value)}` in {fr.qualname} treated as opaque text (assumed total, effect-free)'
+                    if note not in self.ctx.notes:
+                        self.ctx.notes.append(note)
+                    opaque = True
+                    continue
                 if isinstance(x, (int, str)) and not isinstance(x, bool) and v.format_spec is None and v.conversion == -1:
                     parts.append(str(x))
                 else:
@@ -1114,7 +1131,7 @@ class Interp:
             if name == 'errno':
                 return o.args[0] if o.args else None
             raise Unsupported(f'exception attribute {name}')
-        if isinstance(o, (VBytes, VList, VTuple, VSeq, VDict, VStr, str)) or (isinstance(o, type) and o in (int, bytes, str, dict)):
+        if isinstance(o, (VBytes, VList, VTuple, VSeq, VDict, VStr, str, dict, list, tuple, set, frozenset)) or (isinstance(o, type) and o in (int, bytes, str, dict)):
             return VBound(o, None, name)
         if is_sym(o):
             return VBound(o, None, name)
@@ -1173,6 +1190,8 @@ class Interp:
     def getslice(self, o, lo, hi, node):
         if isinstance(o, VIte):
             return lift(o, lambda x: self.getslice(x, lo, hi, node))
+        if isinstance(o, VBytes) and getattr(o, 'unbounded', False):
+            return o.slice(lo if lo is not None else 0, hi)
         if isinstance(o, VBytes):
             n = o.length()
             a = self.clamp(lo, n, 0)
@@ -1292,6 +1311,8 @@ class Interp:
                 raise exc(IndexError)
             o.items[k] = v
             return
+        if isinstance(o, VObj) and 'setitem!' in o.fields:
+            return o.fields['setitem!'](self, o, k, v)
         raise Unsupported(f'subscript store on {type(o).__name__} (line {node.lineno})')
 
     # ----------------------------------------------------------------- comprehension (static only)
